@@ -292,6 +292,24 @@ let cmd_ts96new t =
   let parts = z_of_string (next t) in
   res_str (fun p -> "ok " ^ string_of_z p) (M.ts96_new d parts)
 
+(* unopt <dt> <level> <gcds> <n> sorted.. | <k> (count weight jump)*k : the exact integer skeleton of
+   choose_unoptimized_prefixes with the run-length decisions of the real code as oracle *)
+let cmd_unopt t =
+  let level = n_of_string (next t) in
+  let gcds = next_int t <> 0 in
+  let n = next_int t in
+  let sorted = List.init n (fun _ -> n_of_string (next t)) in
+  let _bar = next t in
+  let k = next_int t in
+  let oracle = List.init k (fun _ ->
+    let c = next t in let w = next t in let j = next t in (c, (n_of_string w, n_of_string j))) in
+  let rl count _n = List.assoc_opt (string_of_n count) oracle in
+  let maxp = M.choose_max_n_prefixes level (n_of_int n) in
+  let ws = M.choose_unoptimized sorted maxp gcds rl in
+  String.concat " " (string_of_int (List.length ws) :: List.map (fun w ->
+    Printf.sprintf "%s %s %s %s %s %s" (string_of_n w.M.w_count) (string_of_n w.M.w_weight) (string_of_n w.M.w_lower)
+      (string_of_n w.M.w_upper) (match w.M.w_jump with None -> "-1" | Some j -> string_of_n j) (string_of_n w.M.w_gcd)) ws)
+
 let run_line line =
   let t = toks_of line in
   let cmd = next t in
@@ -303,6 +321,7 @@ let run_line line =
   | "varint" -> cmd_varint t
   | "flagsparse" -> cmd_flagsparse t
   | "flagswrite" -> cmd_flagswrite t
+  | "maxpref" -> let l = n_of_string (next t) in let n = n_of_string (next t) in string_of_n (M.choose_max_n_prefixes l n)
   | "st2ts" -> cmd_st2ts t
   | "ts2st" -> cmd_ts2st t
   | "ts96new" -> cmd_ts96new t
@@ -319,6 +338,10 @@ let run_line line =
      | "specenc" -> cmd_specenc d t
      | "kinfo" -> cmd_kinfo d t
      | "gcdbits" -> string_of_n (M.gcd_bits (n_of_string (next t)))
+     | "unopt" -> cmd_unopt t
+     | "pairgcd" -> let a = n_of_string (next t) in let b = n_of_string (next t) in string_of_n (M.pgcd a b)
+     | "gcd" -> let k = next_int t in string_of_n (M.gcd_sorted (List.init k (fun _ -> n_of_string (next t))))
+
      | _ -> failwith ("unknown command " ^ cmd))
 
 let () =
